@@ -51,7 +51,16 @@ def r17_1(ctx):
         p = f.parent(c)
         while p is not None and p['k'] == 'cast':
             p = f.parent(p)
-        compared = p is not None and p['k'] == 'bin' and p['op'] in RELOPS
+        from .C14 import canon
+        want = canon(f, f.call_args(c)[2])
+
+        def against_count(cmpnode, me):
+            """the other operand of the comparison is the requested item count"""
+            a, b = f.kid(cmpnode, 0), f.kid(cmpnode, 1)
+            other = b if (cu.strip_casts(f, a) is me or f.is_ancestor(a, me)) else a
+            return canon(f, other) == want
+        compared = p is not None and p['k'] == 'bin' and p['op'] in RELOPS and against_count(p, c)
+        weak = p is not None and p['k'] == 'bin' and p['op'] in RELOPS and not compared
         var = None
         if not compared and p is not None:
             if p['k'] == 'decl':
@@ -61,12 +70,19 @@ def r17_1(ctx):
                 var = l['name'] if l is not None and l['k'] == 'ref' else None
             if var:
                 for n in f.all_nodes():
-                    if n['k'] == 'bin' and n['op'] in RELOPS and \
-                            any(x['k'] == 'ref' and x['name'] == var for x in f.walk(n)):
-                        compared = True
+                    if n['k'] == 'bin' and n['op'] in RELOPS:
+                        for x in (f.kid(n, 0), f.kid(n, 1)):
+                            xs = cu.strip_casts(f, x)
+                            if xs is not None and xs['k'] == 'ref' and xs['name'] == var:
+                                if against_count(n, xs):
+                                    compared = True
+                                else:
+                                    weak = True
         dst = f.show(cu.strip_casts(f, f.call_args(c)[0]))[:24]
         ctx.ob('R17.1', '%s:read#%d(%s):count-checked' % (f.name, occ, dst), compared, f.loc(c),
-               'the number of items read is compared with the number requested' if compared else
+               'the number of items read is compared with the number requested (%s)' % want if compared else
+               ('the result of yr_stream_read is compared, but not with the %s item(s) requested: a '
+                'short read is accepted as if all the data were there' % want) if weak else
                'the result of yr_stream_read is not checked: a short file is accepted as if '
                'the data were there')
     return f
